@@ -1210,7 +1210,14 @@ def check_buckets(r, rule):
 def _accum_component(s, term, triplets):
     """k when ``term`` is a list accumulator collecting triplet[k] over ``for triplet in triplets`` (append or += [..]); else None."""
     t = strip(term)
-    if head(t) == "comp" and t[1] == "list" and len(t[3]) == 1 and not t[3][0][1] and strip(t[3][0][0][3]) == triplets:
+
+    def src(x):
+        # list(triplets) / tuple(triplets): the same triplets, materialised once
+        x = strip(x)
+        while is_call(x) and head(strip(x[1])) == "glob" and strip(x[1])[1] in ("builtins.list", "builtins.tuple") and len(x[2]) == 1 and not x[3]:
+            x = strip(x[2][0])
+        return x
+    if head(t) == "comp" and t[1] == "list" and len(t[3]) == 1 and not t[3][0][1] and src(t[3][0][0][3]) == triplets:
         e = strip(t[2])
         if head(e) == "sub" and strip(e[1]) == t[3][0][0] and is_const(e[2]) and isinstance(e[2][2], int):
             return e[2][2]
@@ -1218,7 +1225,7 @@ def _accum_component(s, term, triplets):
     if head(t) != "after":
         return None
     lp = s.loops.get(t[1])
-    if lp is None or strip(lp.iterable) != triplets:
+    if lp is None or src(lp.iterable) != triplets:
         return None
     init = strip(lp.init.get(t[2], NONE))
     if not (head(init) == "list" and not init[1]):
@@ -1344,15 +1351,51 @@ VALIDATION_SPEC = [
 ]
 
 
+def _type_set(nn, modname, t):
+    """Members of a literal collection of types, or of a module-level constant bound to one (set / frozenset / tuple of names)."""
+    import ast as _ast
+    t = strip(t)
+    if head(t) in ("set", "tuple", "list"):
+        return {strip(x) for x in t[1]}
+    if head(t) == "call" and head(strip(t[1])) == "glob" and strip(t[1])[1] in ("builtins.frozenset", "builtins.set", "builtins.tuple") and len(t[2]) == 1:
+        return _type_set(nn, modname, t[2][0])
+    if head(t) == "glob" and t[1] in nn.P.module_vars:
+        node = nn.P.module_vars[t[1]]
+        if isinstance(node, _ast.Call) and isinstance(node.func, _ast.Name) and node.func.id in ("frozenset", "set", "tuple") and len(node.args) == 1:
+            node = node.args[0]
+        if isinstance(node, (_ast.Set, _ast.Tuple, _ast.List)):
+            out = set()
+            for e in node.elts:
+                d = _ast.unparse(e)
+                rr = nn.P.resolve_global(modname, d.split(".")[0])
+                if rr is None and d in ("str", "int", "float", "bytes"):
+                    rr = "builtins." + d
+                if rr is None:
+                    return None
+                out.add(("glob", rr + d[len(d.split(".")[0]):]))
+            return out
+    return None
+
+
 def check_validation(r, rule):
-    """_check_common_input holds, for each argument, an assertion equivalent to the specified test; every engine calls it first."""
+    """_check_common_input holds, for each argument, assertions whose conjunction is equivalent to the specified test; every engine calls it first."""
     from ..cond import compare_trees
+    from ..rules import fold_module_consts, small_rewrites
     nn = get_nn(r)
     q = MOD + "_check_common_input"
     s = nn.summary(q)
     r.rep.analysed(q)
     asserts = s.events_of("assert")
     pnames = [p[0] for p in s.params]
+    prior = {strip_all(a["cond"]) for a in asserts}
+
+    def passive(g, pol):
+        # guards that only say "the earlier validation steps did not raise" are not conditions on the input
+        return pol and (strip_all(g) in prior or head(strip(g)) in ("tryfall", "noexit") or (head(strip(g)) == "un" and head(strip(strip(g)[2])) == "caught"))
+    fmc = fold_module_consts(nn.P)
+    norm = lambda c: rewrite(rewrite(strip_all(c), fmc), small_rewrites)
+    uncond = [e for e in asserts if not e.ctx.loops and not e.ctx.tries and all(passive(g, pol) for g, pol in e.ctx.guards)]
+    T = lambda c: ("ite", c, ("const", "bool", True), ("const", "bool", False))
     for what, src, slot in VALIDATION_SPEC:
         # write the spec with the function's own parameter names (positional correspondence)
         spec_names = {"seqs": 0, "max_edits": 1, "max_returns": 2, "n_cpu": 3, "max_cust_dist": 5, "output_type": 6}
@@ -1361,34 +1404,53 @@ def check_validation(r, rule):
             if idx < len(pnames) and pnames[idx] != nme:
                 fsrc = fsrc.replace(nme, pnames[idx])
         sp = r.A.summarize_source(fsrc, "v", "pyrepseq.nn").ret
+        # the assertions that speak about this argument only; their conjunction must be the specified test
+        par = ("param", pnames[slot])
+        mine = [e for e in uncond if {x for x in walk(strip_all(e["cond"])) if x[0] == "param"} == {par}]
         hit = None
-        for e in asserts:
-            if e.ctx.loops or e.ctx.tries:
-                continue
-            m, _ = compare_trees(("ite", strip_all(e["cond"]), ("const", "bool", True), ("const", "bool", False)),
-                                 ("ite", strip_all(sp), ("const", "bool", True), ("const", "bool", False)), lambda a, b: a == b)
+        if mine:
+            conds = tuple(norm(e["cond"]) for e in mine)
+            conj = conds[0] if len(conds) == 1 else ("and", conds)
+            m, _ = compare_trees(T(conj), T(norm(sp)), lambda a, b: a == b)
             if not m:
-                hit = e
-                break
-        r.rep.ob(rule, q, hit is not None, f"invalid input is rejected: {what}", wh(r, q, hit.node if hit else s.func.node), expected="assert " + src,
-                 found="equivalent assertion present" if hit else "no equivalent unconditional assertion", key=f"validate {what}")
-    # element type checks inside try/for
-    def elem_assert(container):
-        for e in asserts:
+                hit = mine[0]
+        r.rep.ob(rule, q, hit is not None, f"invalid input is rejected: {what}", wh(r, q, hit.node if hit else (mine[0].node if mine else s.func.node)), expected="assert " + src,
+                 found="equivalent assertion(s) present" if hit else ("the unconditional assertions on this argument are not equivalent to the test: " + "; ".join(show(e["cond"], 60) for e in mine) if mine else "no unconditional assertion on this argument"),
+                 key=f"validate {what}")
+
+    # element type checks: an assertion on every element, directly in a loop or through a helper that loops over its argument
+    def elem_asserts_of(summ, container, ctx_guards, modname):
+        for e in summ.events_of("assert"):
             if len(e.ctx.loops) == 1:
-                lp = s.loops[e.ctx.loops[0]]
+                lp = summ.loops[e.ctx.loops[0]]
                 if strip(lp.iterable) == container:
                     c = strip(e["cond"])
                     if head(c) == "cmp" and c[1] == "in" and is_call(c[2], "builtins.type") and strip(c[2][2][0]) == lp.elem:
-                        types = {strip(x) for x in strip(c[3])[1]} if head(strip(c[3])) in ("set", "tuple", "list") else set()
+                        types = _type_set(nn, modname, c[3]) or set()
                         if ("glob", "builtins.str") in types and types <= {("glob", "builtins.str"), ("glob", "numpy.str_")}:
-                            # the check must run for every element of every input: no guard around the loop or the assertion
-                            prior = {strip_all(a["cond"]) for a in asserts}
-                            # guards that only say "the earlier validation steps did not raise" are not conditions on the input
-                            extra = [g for g, pol in tuple(e.ctx.guards) + tuple(lp.ctx.guards)
-                                     if not (pol and (strip_all(g) in prior or head(strip(g)) in ("tryfall", "noexit") or (head(strip(g)) == "un" and head(strip(strip(g)[2])) == "caught")))]
-                            if not extra:
-                                return e
+                            yield e, tuple(ctx_guards) + tuple(e.ctx.guards) + tuple(lp.ctx.guards)
+
+    def elem_assert(container):
+        def none_test(g, pol):
+            g = strip_all(g)
+            return head(g) == "cmp" and g[2] == container and g[3] == NONE and ((g[1] in ("is", "==") and not pol) or (g[1] in ("isnot", "!=") and pol))
+        cands = list(elem_asserts_of(s, container, (), s.func.module))
+        for ce in s.events_of("call"):
+            callee, _ = resolve_callee(nn, q, ce["term"])
+            if callee and callee in nn.P.functions and callee != q and not ce.ctx.loops:
+                cs = nn.summary(callee)
+                bind = nn.A.bind_call(cs, ce["term"])
+                if bind is None:
+                    continue
+                for cp, v in bind.items():
+                    if strip(v) == container and head(cp) == "param":
+                        for e2, gs in elem_asserts_of(cs, cp, ce.ctx.guards, cs.func.module):
+                            cands.append((ce, gs))
+        for e, gs in cands:
+            # the check must run for every element of every input: no condition on the input around the loop or the assertion
+            # (a test that the optional container was given at all is not such a condition)
+            if all(passive(g, pol) or all(none_test(a_, p_) for a_, p_ in lits(g, pol)) for g, pol in gs):
+                return e
         return None
     for idx, nm in ((0, "seqs"), (7, "seqs2")):
         if idx < len(pnames):
